@@ -104,7 +104,7 @@ class C17Noise(Machine):
                    "Nyquist bin", "amplitude functions are vectorised or raise TypeError on arrays"]
     required_counters = ("probe.abs_time_reobserved", "probe.rebuild_compared", "fault.bad_band",
                          "fault.no_rms", "probe.file_basis_compared", "probe.dft_checked",
-                         "probe.unit_rms_checked", "draws.injected", "probe.antenna_windows")
+                         "probe.unit_rms_checked", "draws.injected", "probe.antenna_windows", "draws.rand", "draws.rayleigh")
 
     # ------------------------------------------------------------------
     def draw_config(self, rng):
